@@ -1360,7 +1360,9 @@ class timed_window(Stream):
             L, self._buffer = self._buffer, []
             metadata, self.metadata_buffer = self.metadata_buffer, []
             m = [m for ml in metadata for m in ml]
-            self.last = self._emit(L, m)
+            # one future for the whole emission: update() hands it to every arrival until the next tick
+            # and it is awaited here as well (a bare coroutine object could be awaited only once)
+            self.last = gen.convert_yielded(self._emit(L, m))
             self._release_refs(m)
             yield self.last
             yield gen.sleep(self.interval)
@@ -1482,7 +1484,8 @@ class timed_window_unique(Stream):
             metadata_result, self._metadata_buffer = list(self._metadata_buffer.values()), {}
             # TODO: figure out why metadata_result is handled differently here...
             m = [m for ml in metadata_result for m in ml]
-            self.last = self._emit(result, m)
+            # one future for the whole emission (see timed_window.cb)
+            self.last = gen.convert_yielded(self._emit(result, m))
             self._release_refs(m)
             yield self.last
             yield gen.sleep(self.interval)
